@@ -34,6 +34,7 @@ fn main() {
 		}
 		"record" => match args[2].as_str() {
 			"client" => vh::client_scen::run(&args[3], args[4].parse().unwrap(), &args[5]),
+			"clientscript" => vh::client_scen::run_scripts(&args[3], &args[4], &args[5]),
 			"clientfuzz" => vh::client_scen::fuzz(args[4].parse().unwrap(), &args[5]),
 			"subs" => vh::c04_subs_conc::run(args[4].parse().unwrap(), &args[5]),
 			"stop" => vh::c10_stop::run(args[4].parse().unwrap(), &args[5]),
